@@ -51,7 +51,7 @@ def captured_vectors(corpus):
 def build(tier, k=None, envs=None, only=None):
     """-> (corpus, selfval summary, list of vectors, stats)"""
     corpus, sv = load_model()
-    k = k if k is not None else (8 if tier == 'quick' else 200)
+    k = k if k is not None else (8 if tier == 'quick' else 600)
     d = os.path.join(common.BUILD, 'vec', f'{tier}-{common.seed()}-{os.getpid()}')
     stats, files = vectors.build(model.default_root(), common.seed(), k, d, envs=envs, only=only, procs=min(9, common.NCPU))
     vecs = []
